@@ -146,6 +146,13 @@ func genC19(r *Rng, n int, tier string, emit func(Case)) {
 				}
 			}
 		}
+		// a directory whose `index.html` is itself a DIRECTORY (an export folder, an unpacked archive): still a directory, never listed
+		idxDir := rr.Chance(1, 3)
+		if idxDir {
+			dirs = append(dirs, "export", "export/index.html")
+			files["export/index.html/part.txt"] = "INSIDE-export-part"
+			files["export/report.csv"] = "INSIDE-export-report"
+		}
 		outside := J{"secret.txt": "CANARY-root-secret", "frontend/secret.txt": "CANARY-frontend-secret", "frontend/dist.txt": "CANARY-dist-sibling", "frontend/distx/file": "CANARY-prefix-sibling"}
 		var p string
 		switch rr.Intn(6) {
@@ -157,6 +164,12 @@ func genC19(r *Rng, n int, tier string, emit func(Case)) {
 			if len(dottedHere) > 0 && rr.Chance(2, 3) {
 				p = "/assets/" + dottedHere[rr.Intn(len(dottedHere))] + []string{"", "/", "/inner.txt", "/."}[rr.Intn(4)]
 			}
+		case 2:
+			if idxDir {
+				p = "/assets/" + []string{"export/", "export", "export/index.html", "export/index.html/", "export/report.csv", "export/index.html/part.txt"}[rr.Intn(6)]
+				break
+			}
+			fallthrough
 		default:
 			k := rr.Range(1, 7)
 			var parts []string
